@@ -24,6 +24,9 @@ Proof.
   - right. rewrite upd_other in H by exact N. auto.
 Qed.
 
+Lemma nth_map_lt {X Y} (f : X -> Y) l p d d' : p < length l -> nth p (map f l) d = f (nth p l d').
+Proof. revert p; induction l as [|h t IH]; intros [|p] H; cbn in *; try lia; auto. apply IH; lia. Qed.
+
 (* order-preserving subsequence *)
 Inductive subseq {X} : list X -> list X -> Prop :=
 | sub_nil : subseq [] []
@@ -46,6 +49,15 @@ Proof.
   cbn in H. remember (x :: a ++ b) as k eqn:E. revert E. induction H as [|l1 l2 y S IH2|l1 l2 y S IH2]; intros E; [discriminate| |].
   - apply sub_skip. auto.
   - injection E as -> ->. apply sub_take. apply IH. exact S.
+Qed.
+Lemma subseq_app_l {X} (a b : list X) : subseq b (a ++ b).
+Proof. induction a; cbn; [apply subseq_refl|apply sub_skip; auto]. Qed.
+Lemma subseq_trans {X} (a b c : list X) : subseq a b -> subseq b c -> subseq a c.
+Proof.
+  intros H1 H2. revert a H1. induction H2 as [|l1 l2 x S IH|l1 l2 x S IH]; intros a H1.
+  - exact H1.
+  - apply sub_skip. auto.
+  - inversion H1; subst; [apply sub_skip|apply sub_take]; auto.
 Qed.
 Lemma subseq_In {X} (a b : list X) x : subseq a b -> In x a -> In x b.
 Proof. induction 1; cbn; intros; auto. destruct H0; auto. Qed.
